@@ -181,6 +181,20 @@ def replay(col, item):
                         col.bump("crash_point_not_reached")
                         return
                 i = j - 1
+            elif a == "exit":
+                # normal interpreter exit: whatever typhon registered with atexit for the live object runs now
+                reg = FM.atexit.registered
+                if not reg:
+                    col.violation("no-save-registered-at-exit", dict(rep, at_step=i))
+                    return
+                try:
+                    for fn, aa, kk in reg:
+                        fn(*aa, **kk)
+                except Exception as ex:
+                    col.violation("exit-save-raises-" + type(ex).__name__, dict(rep, observed=repr(ex)[:300], at_step=i))
+                    return
+                fs = None
+                FM.atexit = NoAtexit()
             elif a == "crash":
                 fs = None
                 FM.atexit = NoAtexit()
@@ -192,6 +206,7 @@ def replay(col, item):
                 with warnings.catch_warnings(record=True) as w:
                     warnings.simplefilter("always")
                     try:
+                        FM.atexit = NoAtexit()          # only the new object's registrations count from here on
                         fs = FileSet(tmpl, info_cache=cache)
                         exc = None
                     except Exception as ex:
@@ -229,7 +244,7 @@ def replay(col, item):
             a2 = sorted(project(x) for x in plain.find(no_files_error=False))
             if a1 != a2:
                 col.violation("find-differs-with-cache", dict(rep, expected=[str(x) for x in a2], observed=[str(x) for x in a1]))
-        if any(h[0] == "crash" and k > 0 and hist[k - 1][0].startswith("save_") and hist[k - 1][0] != "save_rename"
+        if any(h[0] == "exit" for h in hist) or any(h[0] == "crash" and k > 0 and hist[k - 1][0].startswith("save_") and hist[k - 1][0] != "save_rename"
                for k, h in enumerate(hist)) or corrupted:
             col.nontrivial.add((json.dumps(hist), kind))
     finally:
@@ -297,7 +312,7 @@ def run(ctx):
                 "INVARIANT LoadOK\nINVARIANT RoundTrip\nINVARIANT Emit\n" % (("{1,2}", 10) if quick else ("{1,2,3}", 12)))
     res = ctx.tlc(d, "CacheDesign", "MCCache.cfg", workers=1, coverage=True, timeout=1500)
     cov = res.coverage()
-    never = [a for a in ("SaveOpen", "SaveWrite", "SaveClose", "SaveRename", "Crash", "Restart", "Corrupt") if cov.get(a, (0, 0))[1] == 0]
+    never = [a for a in ("SaveOpen", "SaveWrite", "SaveClose", "SaveRename", "Crash", "ExitSave", "Restart", "Corrupt") if cov.get(a, (0, 0))[1] == 0]
     if never:
         raise MachineryError("CacheDesign actions never taken: %s" % never)
     cases = list(res.tagged("CASE"))
